@@ -40,6 +40,11 @@ Definition mblock := (bool * Z * Z)%type.
 (* report block: (MediaSSRC, BeginSequence, MetricBlocks) *)
 Definition rblock := (Z * Z * list mblock)%type.
 
+(* observable projection of a metric block as one number (what the harness prints):
+   Received * 2^18 + ECN * 2^16 + ArrivalTimeOffset *)
+Definition mbz (received : bool) (ecn a : Z) : Z := (if received then 262144 else 0) + ecn * 65536 + a.
+Definition enc_mb (m : mblock) : Z := let '(r, e, a) := m in mbz r e a.
+
 (* the float kernel of getArrivalTimeOffset, for a duration d >= 0 in ns:
    a := d.Seconds() * 1024.0 ; returns (a > 0x1FFD, trunc a).
    Duration.Seconds() is float64(d / Second) + float64(d % Second) / 1e9. *)
